@@ -64,6 +64,8 @@ class Part:
     stateful: bool = False                   # `strategy` is a callable(ctx) -> RuleBasedStateMachine class
     steps_quick: int = 25
     steps_thorough: int = 40
+    fuzz_quick: int = 0                      # additional coverage-guided (atheris / libFuzzer) executions of the same
+    fuzz_thorough: int = 0                   # strategy + body per shard; 0 = none (see vcheck/fuzz.py)
 
 
 class Recorder:
@@ -192,7 +194,47 @@ def run_part(part: Part, ctx: Ctx) -> Optional[Dict[str, Any]]:
         return _run_enumeration(part, ctx)
     if part.stateful:
         return _run_stateful(part, ctx)
-    return _run_hypothesis(part, ctx)
+    v = _run_hypothesis(part, ctx)
+    if v is None:
+        v = _run_fuzz(part, ctx)
+    return v
+
+
+def _run_fuzz(part: Part, ctx: Ctx) -> Optional[Dict[str, Any]]:
+    """Coverage-guided campaign over the same strategy and body in a child process (atheris instruments at import)."""
+    import shutil
+    import subprocess
+    import sys
+    import tempfile
+    runs = part.fuzz_quick if ctx.tier == "quick" else part.fuzz_thorough
+    if runs <= 0:
+        return None
+    work = tempfile.mkdtemp(prefix="vcheck-fuzzrun-")
+    out = os.path.join(work, "out.json")
+    try:
+        cmd = [sys.executable, "-m", "vcheck.fuzz", ctx.prop, part.name, "--runs", str(runs), "--seed", str(ctx.seed),
+               "--out", out, "--tier", ctx.tier, "--shard", f"{ctx.shard}/{ctx.nshards}", "--corpus", os.path.join(work, "corpus")]
+        e = dict(os.environ, PYTHONHASHSEED="0")
+        r = subprocess.run(cmd, cwd=env.VERIF_DIR, env=e, stdout=subprocess.DEVNULL, stderr=subprocess.PIPE, text=True)
+        if r.returncode == 3 or not os.path.exists(out):
+            ctx.rec.notes["fuzz-unavailable"] += 1
+            if r.returncode not in (3,):
+                raise HarnessError(f"fuzz driver failed (exit {r.returncode}): {r.stderr[-1500:]}")
+            return None
+        with open(out) as f:
+            d = json.load(f)
+        if r.returncode not in (0, 77):
+            raise HarnessError(f"fuzz driver failed (exit {r.returncode}): {r.stderr[-1500:]}")
+        rec = d["rec"]
+        ctx.rec.evaluations += rec["evaluations"]
+        ctx.rec.nontrivial.update(rec["nontrivial"])
+        for key, target in (("classes", ctx.rec.classes), ("known", ctx.rec.known), ("part_evals", ctx.rec.part_evals), ("notes", ctx.rec.notes)):
+            for k, v in rec[key].items():
+                target[k] += v
+        ctx.rec.notes["fuzz-executions"] += d.get("calls", 0)
+        return d["violations"][0] if d["violations"] else None
+    finally:
+        shutil.rmtree(work, ignore_errors=True)
 
 
 def _violation_record(ctx: Ctx, part: Part, case: Any, v: Violation) -> Dict[str, Any]:
